@@ -18,6 +18,7 @@ import (
 	"os"
 	"os/exec"
 	"path/filepath"
+	"regexp"
 	"strings"
 	"time"
 
@@ -321,6 +322,74 @@ func c03Parse(src []byte) (r c03ParseRes) {
 		}
 	}
 	return
+}
+
+// c03NativeFuncs: Go functions for ParserConfig.Funcs, derived from the source alone (so a replay needs nothing else): the first
+// few distinct names the source calls or defines, each given one of several signatures (fixed arity 0-3, variadic, with an
+// error result). The library parses `name(...)` calls against these signatures, lets an AWK definition of the same name take
+// precedence, and must still answer with a program or a *ParseError whatever the source does with the names.
+var c03CallRe = regexp.MustCompile(`[A-Za-z_][A-Za-z0-9_]*\(`)
+
+func c03NativeFuncs(src []byte) (map[string]interface{}, []string) {
+	sigs := []interface{}{
+		func() int { return 0 },
+		func(a int) int { return a },
+		func(a string, b float64) string { return a },
+		func(a, b, c int) (int, error) { return a, nil },
+		func(a ...string) string { return "" },
+		func(a int, b ...float64) float64 { return 0 },
+	}
+	funcs := map[string]interface{}{}
+	var names []string
+	for _, m := range c03CallRe.FindAll(src, 40) {
+		name := string(m[:len(m)-1])
+		if _, ok := funcs[name]; ok || len(name) > 24 {
+			continue
+		}
+		h := 0
+		for _, ch := range []byte(name) {
+			h = h*31 + int(ch)
+		}
+		funcs[name] = sigs[(h&0x7fffffff)%len(sigs)]
+		names = append(names, name)
+		if len(names) == 4 {
+			break
+		}
+	}
+	return funcs, names
+}
+
+func c03ParseFuncs(src []byte, funcs map[string]interface{}) (r c03ParseRes) {
+	defer func() {
+		if p := recover(); p != nil {
+			r.Panic = fmt.Sprint(p)
+		}
+	}()
+	_, err := parser.ParseProgram(src, &parser.ParserConfig{Funcs: funcs})
+	if err != nil {
+		r.Err = err.Error()
+		if pe, ok := err.(*parser.ParseError); ok {
+			r.IsParse = true
+			r.Line, r.Col, r.Msg = pe.Position.Line, pe.Position.Column, pe.Message
+		}
+	}
+	return
+}
+
+// c03CheckParseAll: c03CheckParse of the plain parse and, when the source mentions callable names, of the parse with those
+// names supplied as native Go functions (seeded C03-p2).
+func c03CheckParseAll(src []byte, r c03ParseRes) string {
+	if bad := c03CheckParse(src, r); bad != "" {
+		return bad
+	}
+	funcs, names := c03NativeFuncs(src)
+	if len(names) == 0 {
+		return ""
+	}
+	if bad := c03CheckParse(src, c03ParseFuncs(src, funcs)); bad != "" {
+		return fmt.Sprintf("with ParserConfig.Funcs naming %v as native functions: %s", names, bad)
+	}
+	return ""
 }
 
 // c03CheckParse: "" or the violation.
